@@ -666,8 +666,9 @@ def run_probe(sc: Dict[str, Any]) -> Dict[str, Any]:
 # ======================================================================================================
 HIST_ARCH = {"dim": 1, "c0": 2, "sp": 8, "nodes": [
     {"op": "conv", "ins": [0], "out": 4, "k": 5, "causal": True}, {"op": "relu", "ins": [1]},
-    {"op": "conv", "ins": [2], "out": 3, "k": 3, "causal": True, "bias": False}, {"op": "flat", "ins": [3]},
-    {"op": "lin", "ins": [4], "out": 2}]}
+    {"op": "conv", "ins": [2], "dw": True, "k": 3, "causal": True},        # depthwise: its cost FUNCTION is picked by a constraint
+    {"op": "conv", "ins": [3], "out": 3, "k": 3, "causal": True, "bias": False}, {"op": "flat", "ins": [4]},
+    {"op": "lin", "ins": [5], "out": 2}]}
 _HIST_CACHE: Dict[str, Any] = {}
 
 
@@ -804,6 +805,8 @@ def run_hist(sc: Dict[str, Any]) -> Dict[str, Any]:
                 model.train_rf = (b == "on")
             elif a == "dil":
                 model.train_dilation = (b == "on")
+            elif a == "respec":          # the cost specification is assigned again (same metrics, a new dictionary)
+                model.cost_specification = dict(model.cost_specification)
             else:
                 raise tlc.MachineryError("unknown history action " + a)
         except tlc.MachineryError:
